@@ -457,8 +457,8 @@ func run(c *vf.Ctx) {
 	if workers < 2 {
 		workers = 2
 	}
-	if workers > 12 {
-		workers = 12
+	if workers > 6 {
+		workers = 6
 	}
 	var producedSQL, producedSyn int64
 	for w := 0; w < workers; w++ {
